@@ -6,6 +6,9 @@ A script is described by a dict
   mod  = {"catch": 0|1, "join": mask (bit id: task id is join()ed, else try_join()ed), "stages": 1..3, "bud": B, "start": [prog..], "msg": [prog..], "tasks": [prog..], "end": prog}
   prog = [act..];  act = ("log", x) | ("send", far, d, x) | ("sched", d, x) | ("sleep", d) | ("shutdown",)
                          | ("restart", d) | ("panic",) | ("quiet",) | ("setcatch", 0|1)
+                         | ("sched_past", d, x) | ("send_past", far, d, x) | ("restart_past", d)   calls of schedule_at / send_at /
+                           current().shutdow_and_restart_at with the time stamp now - (1 + d):
+                           the library panics inside the call (PANICS: the actions that end a callback / task with a panic)
   inj kind: 0 handle_message_on(m) | 1 add_message_onto(m.out) | 2 add_message_onto(m.far)
 Topology: ring; m.out -> (m+1).in ; m.far -> (m+1).via -> (m+2).fin.
 """
@@ -14,6 +17,9 @@ R_START, R_MSG, R_TASK, R_TIMER, R_END, R_RESET, R_LOG, R_SEND, R_SCHED, R_SHUT,
     R_ERR, R_FUEL, R_SEP = range(1, 18)
 CALLS = {R_START, R_MSG, R_TASK, R_TIMER, R_END}
 OPS = {"log": 0, "send": 1, "sched": 2, "sleep": 3, "shutdown": 4, "restart": 5, "panic": 6, "quiet": 7}
+
+
+PANICS = ("panic", "sched_past", "send_past", "restart_past")
 
 
 def lp(xs):
@@ -38,6 +44,12 @@ def enc_act(a):
         return [6, 0, 0, 0]
     if k == "setcatch":
         return [8 if a[1] else 9, 0, 0, 0]
+    if k == "sched_past":
+        return [10, 0, a[1], a[2]]
+    if k == "send_past":
+        return [11, a[1], a[2], a[3]]
+    if k == "restart_past":
+        return [12, 0, a[1], 0]
     return [7, 0, 0, 0]
 
 
@@ -107,9 +119,9 @@ class Cur:
 def dec_prog(v):
     out = []
     for i in range(0, len(v) - len(v) % 4, 4):
-        o, a, b, c = v[i] % 10, v[i + 1], v[i + 2], v[i + 3]
+        o, a, b, c = v[i] % 13, v[i + 1], v[i + 2], v[i + 3]
         out.append([("log", c), ("send", a % 2, b, c), ("sched", b, c), ("sleep", b), ("shutdown",), ("restart", b),
-                    ("panic",), ("quiet",), ("setcatch", 1), ("setcatch", 0)][o])
+                    ("panic",), ("quiet",), ("setcatch", 1), ("setcatch", 0), ("sched_past", b, c), ("send_past", a % 2, b, c), ("restart_past", b)][o])
     return out
 
 
@@ -235,6 +247,19 @@ DELAYS = [0, 0, 1, 2, 3, 5, 5, 10]
 TIMES = [0, 1, 2, 3, 5, 5, 7, 10, 10, 12, 15, 20]
 
 
+def gen_panic(rng):
+    """an action that ends the callback / task with a panic: an explicit panic!(), or a call of the public API with a time
+    stamp in the past, which makes the library panic on behalf of the module"""
+    r = rng.random()
+    if r < 0.45:
+        return ("panic",)
+    if r < 0.65:
+        return ("sched_past", rng.choice([0, 0, 1, 3, 100]), rng.randint(0, 3))
+    if r < 0.83:
+        return ("send_past", rng.randint(0, 1), rng.choice([0, 1, 5]), rng.randint(0, 3))
+    return ("restart_past", rng.choice([0, 0, 2, 50]))
+
+
 def gen_act(rng, k_msgs, in_task, p_ctl):
     r = rng.random()
     if r < 0.18:
@@ -249,7 +274,7 @@ def gen_act(rng, k_msgs, in_task, p_ctl):
         return ("log", rng.randint(1, 9))
     if rng.random() < p_ctl:
         return rng.choice([("shutdown",), ("restart", rng.choice(DELAYS)), ("restart", rng.choice(DELAYS)), ("panic",), ("quiet",),
-                           ("setcatch", rng.randint(0, 1))])
+                           ("setcatch", rng.randint(0, 1)), gen_panic(rng)])
     return ("log", rng.randint(10, 19))
 
 
